@@ -92,6 +92,13 @@ def build(spec):
     N = lambda x: num(x, exact)
     c = spec["ctrl"]
     automatic = c["type"] == "main"
+
+    def TT(hours):
+        # the sectioning time may be written in another unit than hours (ctrl["T_unit"]: 1 s, 2 min, 3 h, 4 d)
+        tu = c.get("T_unit", 3)
+        fact = {1: Fraction(1, 3600), 2: Fraction(1, 60), 3: Fraction(1), 4: Fraction(24)}[tu]
+        q = Fraction(str(hours)) / fact if not isinstance(hours, float) else hours / float(fact)
+        return Time(q if exact else float(q), TimeUnit(tu))
     ict = c.get("ict") if automatic else None
     ict_nodes = {}
     if ict is not None:
@@ -100,12 +107,12 @@ def build(spec):
     if automatic:
         C = MainController(name="C1", ict_node=ict_nodes.get(0) if ict else None,
                            hardware_fail_rate_per_year=float(c.get("hw_rate", 0)), software_fail_rate_per_year=float(c.get("sw_rate", 0)),
-                           manual_sectioning_time=Time(N(c["T"]), TimeUnit.HOUR),
+                           manual_sectioning_time=TT(c["T"]),
                            **({"new_signal_time": Time(N(c["new_signal"]), TimeUnit.HOUR)} if c.get("new_signal") else {}),
                            **({"p_fail_repair_new_signal": float(c["p_new"])} if c.get("p_new") is not None else {}),
                            **({"p_fail_repair_reboot": float(c["p_reboot"])} if c.get("p_reboot") is not None else {}))
     else:
-        C = ManualMainController(name="C1", sectioning_time=Time(N(c["T"]), TimeUnit.HOUR))
+        C = ManualMainController(name="C1", sectioning_time=TT(c["T"]))
     ps = PowerSystem(C)
     rep = N(spec.get("rep", "2"))
     B0 = Bus("B0", n_customers=0, s_ref=N(spec.get("s_ref", "1")))
@@ -213,6 +220,10 @@ def build(spec):
     mgn = None
     if mg:
         mode = {"survival": MicrogridMode.SURVIVAL, "full": MicrogridMode.FULL_SUPPORT, "limited": MicrogridMode.LIMITED_SUPPORT}[mg["mode"]]
+        if mg.get("listed_twice"):
+            # the microgrid's lines are also listed among the lines of the hosting network first (as the repository's own
+            # microgrid test does): registering a component twice must not change anything
+            dns[mg["host"][0]].add_lines(ML)
         mgn = Microgrid(distribution_network=dns[mg["host"][0]], connected_line=ML[0], mode=mode)
         mgn.add_buses(MB)
         mgn.add_lines(ML[1:])
